@@ -94,7 +94,7 @@ def write_if_changed(path, content):
 # not an executable model; no correspondence could stand in for it.
 FALLBACK_TARGETS = {
     'AbsPosEnums.v', 'AbsPosGen.v', 'BlockGen.v', 'CacheBodyGen.v', 'CacheGen.v', 'CompactLengthGen.v', 'EngineGlueGen.v', 'FiltersGen.v', 'FlexGen.v',
-    'GridTracksGen.v', 'MathGen.v', 'PlacementGen.v', 'RoundingGen.v', 'TreeMethodsGen.v', 'TreeBodiesGen.v',
+    'GridTracksGen.v', 'LeafGen.v', 'MathGen.v', 'PlacementGen.v', 'RootGen.v', 'RoundingGen.v', 'TreeMethodsGen.v', 'TreeBodiesGen.v',
 }
 SNAPSHOTS = os.path.join(ROOT, 'translator', 'snapshots')
 
